@@ -560,6 +560,141 @@ theorem tryHeader_small {D : Decompressor} {IsStream : Bytes → Bytes → Prop}
   obtain ⟨r, hr, hnb, _, _, hdec, _, _⟩ := first_once_valid K k body z hn hz (TRY_HEADER_BUF_SIZE - z.length) hcap
   simp only [tryHeader, tryHeaderOn, inflateOnce, ht, hr, hnb, if_false, hdec]
 
+/-! ## arbitrary files: no panic -/
+
+/-- what the `flate2` API guarantees by its types for ANY state and input (it reads from a slice and
+writes into a slice): a call consumes at most its input and produces at most its room -/
+def DecompressorBounded (D : Decompressor) : Prop :=
+  ∀ (s : D.σ) (inp : Bytes) (cap : Nat) (fin : Bool) (r : Step D.σ),
+    D.decompress s inp cap fin = some r → r.consumed ≤ inp.length ∧ r.produced.length ≤ cap
+
+theorem inflateRest_no_panic {D : Decompressor} (hB : DecompressorBounded D) :
+    ∀ (fuel : Nat) (s : D.σ) (input : Bytes) (room : Nat) (acc : Bytes), input.length + room < fuel →
+    inflateRest D fuel s input room acc ≠ .panic ∧ inflateRest D fuel s input room acc ≠ .outOfFuel := by
+  intro fuel
+  induction fuel with
+  | zero => intro s input room acc h; omega
+  | succ fuel ih =>
+    intro s input room acc hf
+    cases hr : D.decompress s input room false with
+    | none => simp [inflateRest, inflateOnce, hr]
+    | some r =>
+      obtain ⟨hc, hp⟩ := hB s input room false r hr
+      have h1 : ¬ r.consumed > input.length := by omega
+      have h2 : ¬ r.produced.length > room := by omega
+      cases hst : r.status with
+      | streamEnd => simp [inflateRest, inflateOnce, hr, h1, h2, hst]
+      | bufError => simp [inflateRest, inflateOnce, hr, h1, h2, hst]
+      | ok =>
+        by_cases hb : (r.consumed ≠ 0 || r.produced.length ≠ 0) = true
+        · have hdec : (input.drop r.consumed).length + (room - r.produced.length) < fuel := by
+            simp only [List.length_drop]
+            simp only [Bool.or_eq_true, decide_eq_true_eq, ne_eq] at hb
+            omega
+          have := ih r.state (input.drop r.consumed) (room - r.produced.length) (acc ++ r.produced) hdec
+          simp only [inflateRest, inflateOnce, hr, h1, h2, if_false, hst, hb, if_true]
+          exact this
+        · simp only [inflateRest, inflateOnce, hr, h1, h2, if_false, hst, hb]
+          simp
+
+/-- `find_inner` on ANY file content — valid, truncated, garbage, with a header that lies in either
+direction or advertises up to `u64::MAX` bytes — returns `Ok` or `Err`: no slice panic, no arithmetic
+overflow, and the loop's fuel suffices. -/
+theorem findInner_no_panic {D : Decompressor} (hB : DecompressorBounded D) (file : Bytes) :
+    findInner D file ≠ .panic ∧ findInner D file ≠ .outOfFuel := by
+  unfold findInner
+  cases hr1 : inflateOnce D D.init file HEADER_MAX_SIZE with
+  | none => simp
+  | some r1 =>
+    obtain ⟨hc, _⟩ := hB D.init file HEADER_MAX_SIZE false r1 hr1
+    simp only
+    split
+    · simp
+    · split
+      · simp
+      · rename_i kind size headerSize _
+        split
+        · simp
+        · split
+          · split <;> simp
+          · split
+            · simp
+            · split
+              · simp
+              · have g : ¬ r1.consumed > file.length := by omega
+                simp only [g, if_false]
+                rename_i hle _
+                have hfuel : (file.drop r1.consumed).length + (size + headerSize - r1.produced.length)
+                    < file.length + size + headerSize + 2 := by
+                  simp only [List.length_drop]; omega
+                obtain ⟨n1, n2⟩ := inflateRest_no_panic hB _ r1.state (file.drop r1.consumed)
+                  (size + headerSize - r1.produced.length) r1.produced hfuel
+                split
+                · exact absurd ‹_› n1
+                · exact absurd ‹_› n2
+                · simp
+                · split <;> simp
+
+/-! ## `try_header` for files longer than its read buffer -/
+
+/-- A property of the STREAMS (of how the compressor lays them out), not of the zlib API: the first
+`TRY_HEADER_BUF_SIZE - HEADER_MAX_SIZE` (192) bytes of a stream already yield 28 bytes of content if
+there is room for them. It cannot follow from `DecompressorOk`: a valid deflate stream may spend more
+than 192 bytes before its first content byte (empty stored blocks, a large dynamic-Huffman table) —
+`Props.C11.try_header_needs_early_output` exhibits one on which the real `try_header` fails, too. -/
+structure EarlyOutput (D : Decompressor) (IsStream : Bytes → Bytes → Prop) : Prop where
+  early : ∀ {z d inp cap r}, IsStream z d → inp <+: z → TRY_HEADER_BUF_SIZE - HEADER_MAX_SIZE ≤ inp.length →
+    D.decompress D.init inp cap false = some r → r.status ≠ .streamEnd → min cap 28 ≤ r.produced.length
+
+theorem decode_long_prefix (k : Kind) (n : Nat) (hn : n < 2 ^ 64) (rest p : Bytes)
+    (hp : p <+: looseHeader k n ++ rest) (hl : (looseHeader k n).length ≤ p.length) :
+    decodeLooseHeader p = some (k, n, (looseHeader k n).length) := by
+  obtain ⟨t, ht⟩ := hp
+  have hpe : p = looseHeader k n ++ (p.drop (looseHeader k n).length) := by
+    have h1 : (looseHeader k n ++ rest).take (looseHeader k n).length = looseHeader k n := List.take_left' rfl
+    have h2 : (p ++ t).take (looseHeader k n).length = p.take (looseHeader k n).length := by
+      rw [List.take_append_of_le_length hl]
+    rw [ht, h1] at h2
+    conv => lhs; rw [← List.take_append_drop (looseHeader k n).length p]
+    rw [← h2]
+  rw [hpe]
+  exact decode_encode k n hn _
+
+/-- `try_header` answers for EVERY complete object file, however long, given `EarlyOutput` -/
+theorem tryHeader_complete {D : Decompressor} {IsStream : Bytes → Bytes → Prop} (K : DecompressorOk D IsStream)
+    (E : EarlyOutput D IsStream) (k : Kind) (body z : Bytes) (hz : IsStream z (looseHeader k body.length ++ body))
+    (hn : body.length < 2 ^ 64) : tryHeader D z = .ok body.length k := by
+  by_cases hsmall : z.length ≤ TRY_HEADER_BUF_SIZE - HEADER_MAX_SIZE
+  · exact tryHeader_small K k body z hz hn hsmall
+  · have hH := looseHeader_length_le k body.length hn
+    have hroom := TRY_HEADER_room
+    have hlen : (z.take (TRY_HEADER_BUF_SIZE - HEADER_MAX_SIZE)).length = TRY_HEADER_BUF_SIZE - HEADER_MAX_SIZE := by
+      rw [List.length_take]; omega
+    have hpz : z.take (TRY_HEADER_BUF_SIZE - HEADER_MAX_SIZE) <+: z := List.take_prefix _ _
+    have hinv := K.inv_init hz
+    have hpre : z.take (TRY_HEADER_BUF_SIZE - HEADER_MAX_SIZE) <+: z.drop 0 := by simpa using hpz
+    obtain ⟨r, hr⟩ := K.total (TRY_HEADER_BUF_SIZE - (z.take (TRY_HEADER_BUF_SIZE - HEADER_MAX_SIZE)).length) hinv hpre
+    obtain ⟨hc, _, hpp, _, hend⟩ := K.step hinv hpre hr
+    simp only [List.drop_zero, Nat.zero_add] at hpp hend
+    have hne : r.status ≠ .streamEnd := by
+      intro h
+      obtain ⟨h1, _⟩ := hend h
+      omega
+    have hearly := E.early hz hpz (by omega) hr hne
+    have hcap : 28 ≤ TRY_HEADER_BUF_SIZE - (z.take (TRY_HEADER_BUF_SIZE - HEADER_MAX_SIZE)).length := by
+      rw [hlen]; omega
+    have hpl : (looseHeader k body.length).length ≤ r.produced.length := by omega
+    have hnb : r.status ≠ .bufError := by
+      intro hb
+      obtain ⟨_, b2⟩ := K.buf_error hr hb
+      rw [b2] at hpl
+      have : 0 < (looseHeader k body.length).length := by
+        simp only [looseHeader, List.length_append, List.length_cons, List.length_nil]; omega
+      simp only [List.length_nil] at hpl
+      omega
+    have hdec := decode_long_prefix k body.length hn body r.produced hpp hpl
+    simp only [tryHeader, tryHeaderOn, inflateOnce, hr, hnb, if_false, hdec]
+
 /-! ## writing: `hash::Write<deflate::Write<file>>` -/
 
 /-- the `io::Write::write` of the deflate writer as the inner writer of `hash::Write` -/
